@@ -174,12 +174,20 @@ impl EventLoops {
     /// Waiting for read or write events to occur.
     /// This method can only be used in coroutines.
     pub fn wait_event(timeout: Option<Duration>) -> std::io::Result<()> {
+        #[cfg(feature = "verif")]
+        if let Some(r) = crate::verif::intercept_wait(crate::verif::WaitKind::Event, -1, timeout) {
+            return r;
+        }
         Self::event_loop().timed_wait_just(timeout)
     }
 
     /// Waiting for a read event to occur.
     /// This method can only be used in coroutines.
     pub fn wait_read_event(fd: c_int, timeout: Option<Duration>) -> std::io::Result<()> {
+        #[cfg(feature = "verif")]
+        if let Some(r) = crate::verif::intercept_wait(crate::verif::WaitKind::Read, fd, timeout) {
+            return r;
+        }
         let event_loop = Self::event_loop();
         event_loop.add_read_event(fd)?;
         event_loop.wait_just(timeout)
@@ -188,6 +196,10 @@ impl EventLoops {
     /// Waiting for a write event to occur.
     /// This method can only be used in coroutines.
     pub fn wait_write_event(fd: c_int, timeout: Option<Duration>) -> std::io::Result<()> {
+        #[cfg(feature = "verif")]
+        if let Some(r) = crate::verif::intercept_wait(crate::verif::WaitKind::Write, fd, timeout) {
+            return r;
+        }
         let event_loop = Self::event_loop();
         event_loop.add_write_event(fd)?;
         event_loop.wait_just(timeout)
